@@ -96,6 +96,21 @@ void engineActor(const std::vector<std::string> &, const std::vector<std::string
             }
             objs[name] = o;
             order.push_back(name);
+        } else if (w[0] == "GHOST" && w.size() >= 2) {
+            // a bystander of the given kind on the same server (and cache) is created and destroyed at once; whatever it
+            // sends itself is not traced, and the operation has no group of its own: the objects under test must neither
+            // notice its arrival nor suffer from its departure (an operation of the harness only - the model never sees it)
+            g_mute = true;
+            QObject *g = nullptr;
+            if (w[1] == "hostname" && w.size() == 2) g = new Hostname(server.get());
+            else if (w[1] == "provider" && w.size() == 3) g = new Provider(server.get(), static_cast<Hostname *>(need(w[2], "hostname")));
+            else if (w[1] == "browser" && w.size() == 4) g = new Browser(server.get(), io::bstrOfTok(w[2]), cacheOrNull(w[3]));
+            else if (w[1] == "resolver" && w.size() == 4) g = new Resolver(server.get(), io::bstrOfTok(w[2]), cacheOrNull(w[3]));
+            else if (w[1] == "prober" && w.size() == 3) g = new Prober(server.get(), io::recordOfTok(w[2]));
+            delete g;
+            g_mute = false;
+            if (!g) throw std::runtime_error("GHOST: " + l);
+            continue;
         } else if (w[0] == "DEL" && w.size() == 2) {
             auto it = objs.find(w[1]);
             if (it == objs.end() || !it->second.ptr) throw std::runtime_error("DEL: " + l);
